@@ -42,6 +42,7 @@ def policy (ty field : String) : Policy :=
   | "ws.webSocket", "forceCloseC" => .chanLock "mutex"
   | "ws.webSocket", "closing" => .chanFree
   | "ws.server", "connections" => .lock "connMutex"
+  | "ws.server", "closing" => .lock "connMutex"
   | "ocppj.DefaultClientDispatcher", "paused" => .lock "mutex"
   | "ocppj.DefaultClientDispatcher", "timerDeadline" => .lock "timerMutex"
   | "ocppj.DefaultClientDispatcher", "requestChannel" => .chanLock "mutex"
